@@ -108,7 +108,7 @@ func init() {
 		return &Check{
 			ID: "C12",
 			Runs: []Run{{S: c12Scenario(), Opt: map[Tier]Options{
-				Quick:    {Depth: 4, Budget: 150 * time.Second, ReplayEvery: 4},
+				Quick:    {Depth: 4, Budget: 150 * time.Second, ReplayEvery: 16},
 				Thorough: {Depth: 6, Budget: 12 * time.Minute, ReplayEvery: 8, MaxStates: 300000},
 			}}},
 			Owns:        ownsAny("tx.reject_unexpected:str.claim", "tx.reject_unexpected:str.cancel", "tx.reject_unexpected:str.topup", "tx.panic", "tx.accept_unexpected:str.create:blocked_recipient"),
